@@ -48,6 +48,7 @@ type Tap struct {
 	attack        map[string]bool // flows / conn addrs that belong to attackers (not real endpoints)
 	hostile       map[string]bool
 	hostileOpened int
+	hostileFirstOpen time.Duration // virtual time of the first hostile session the server answered
 	replied       map[string]int // bytes/datagrams sent by the server towards an attacker flow
 	kinds         map[string]int // segment kinds seen (reach)
 	geo           []spec.SegGeo
@@ -319,6 +320,9 @@ func (t *Tap) StreamBytes(c *simnet.ConnInfo, dir simnet.Dir, off int64, b []byt
 	if attacker {
 		if dir == simnet.S2C {
 			if t.replied[c.ClientAddr] == 0 && t.isHostileAddr(c.ClientAddr) {
+				if t.hostileOpened == 0 {
+					t.hostileFirstOpen = time.Duration(t.w.nowUs()) * time.Microsecond
+				}
 				t.hostileOpened++
 			}
 			t.replied[c.ClientAddr] += len(b)
@@ -568,6 +572,9 @@ func (t *Tap) DatagramSent(d *simnet.Datagram) {
 		t.replied[d.Dst]++
 		if t.isHostileAddr(d.Dst) {
 			if hs, _ := t.decodeWithAllCreds(d.Data); hs != nil && hs.Meta.Type == refproto.TypeOpenResp {
+				if t.hostileOpened == 0 {
+					t.hostileFirstOpen = time.Duration(t.w.nowUs()) * time.Microsecond
+				}
 				t.hostileOpened++
 			}
 		}
@@ -943,10 +950,10 @@ func (t *Tap) decodeWithAllCreds(b []byte) (*refproto.Segment, string) {
 	return nil, ""
 }
 
-func (t *Tap) hostileSessionsOpened() int {
+func (t *Tap) hostileSessionsOpened() (int, time.Duration) {
 	t.mu.Lock()
 	defer t.mu.Unlock()
-	return t.hostileOpened
+	return t.hostileOpened, t.hostileFirstOpen
 }
 
 // sawQuotaClose: the server emitted a close request with status 1 (quota
